@@ -116,7 +116,7 @@ pub fn run<P: Pat>(args: &Args) -> Value {
     let pace_us = args.num("pace-us", 2000);
     let seed = vlib::seed_from_env();
     let mut out = TraceWriter::create(&args.get("out").expect("--out"));
-    let mode = if procs { "procs" } else { "conc" };
+    let mode = if procs && args.num("slow", 0) > 0 { "slow" } else if procs { "procs" } else { "conc" };
     let shared_path = format!("{root}/{mode}-{}-{tag}.shared", P::NAME);
     let sh = Shared::open(&shared_path, true);
     let name: ServiceName = "c06/svc".try_into().unwrap();
